@@ -23,7 +23,7 @@ func init() {
 }
 
 func runC05(ctx *Ctx) {
-	n := ctx.N(250, 4000)
+	n := ctx.N(500, 5000)
 	for _, t := range ctx.types() {
 		t := t
 		if !model.ContainsMap(t.Desc) {
